@@ -22,7 +22,8 @@ fn texts(max_chars: usize) -> Vec<String> {
 fn main() {
     let args: Vec<String> = std::env::args().collect();
     let label = args.get(1).cloned().unwrap_or_default();
-    let tools = label.starts_with("tools_builtins");
+    let func = args.get(2).cloned().unwrap_or_default();
+    let tools = label.starts_with("tools_builtins") || func.starts_with("tools_builtins");
     let f: fn(&[u8], usize) -> (String, bool, usize) = if tools { tools_builtins::truncate_utf8 } else { tasks_logs::truncate_utf8 };
     let name = if tools { "rip-tools builtins::truncate_utf8" } else { "ripd tasks::logs::truncate_utf8" };
     // (1) single calls: pages = prefixes of well-formed text (start on a boundary, end anywhere)
